@@ -250,8 +250,8 @@ ltostr(char *restrict buf, size_t bsz, long int v,
 		v /= 10U;
 		*bp++ = C(x);
 	}
-	/* fill up with padding */
-	if (UNLIKELY(pad)) {
+	/* fill up with padding, unless there's none or it's to be omitted */
+	if (UNLIKELY(pad == DT_SPPAD_ZERO || pad == DT_SPPAD_SPC)) {
 		static const char pads[] = " 0";
 		const char p = pads[2U - pad];
 
